@@ -14,8 +14,9 @@ REQUIRED_THEOREMS = ["C19_range", "C19_congruent", "C19_shift_invariant", "C19_b
                      "C19_add_congruent_to_sum", "C19_add_shift_invariant", "C19_sub_is_add_of_opposite", "C19_sub_range",
                      "C19_sub_congruent_to_difference", "C19_sub_shift_invariant", "C19_mean_is_arg_of_resultant",
                      "C19_mean_single_column", "C19_mean_shift", "C19_mean_rotation", "C19_mean_all_equal",
-                     "C19_mean_all_equal_single_column", "C19_mean_in_arc"]
-RULE = ("cases from one seeded stream: add/sub with shapes 1..4 x 1..9, angles small / up to 1e6 / sums exactly +-pi (double) / sums "
+                     "C19_mean_all_equal_single_column", "C19_mean_in_arc", "C19_mean_rotation_matrix", "C19_mean_in_arc_matrix",
+                     "C19_mean_all_equal_matrix", "C19_mean_single_column_literal_refuted"]
+RULE = ("cases from one seeded stream: add/sub with shapes 1..4 x 1..9 (a quarter up to 16 x 50, some 0 x k and k x 0), angles small / up to 1e6 / sums exactly +-pi (double) / sums "
         "within 1e-12..1e-7 of +-pi, every entry of both arguments shifted by integer multiples of 2 pi (|k| up to 1e5); mean with 1..9 "
         "columns (1 = returned as is), positive and unscented (negative central) weights, samples clustered (< half turn) / uniform / huge / "
         "all equal / exactly +-pi, resultant length >= 1e-6, 2 pi shifts and a common rotation; non-trivial = every case except "
@@ -23,7 +24,7 @@ RULE = ("cases from one seeded stream: add/sub with shapes 1..4 x 1..9, angles s
 TRUSTED_BASE = ["Coq 8.16.1 kernel (coqc); the four real-number axioms of Coq's Reals (sig_forall_dec, sig_not_dec, functional_extensionality_dep, classic)",
                 "Coq stdlib Reals (exp, cos, sin, atan, PI); atan2 is defined from atan by quadrant in C19_ROps.v and its polar-form contract is proved",
                 "extraction (ExtrOcamlBasic only) and ocaml/float_ops.ml (libm sin/cos/exp/atan2 as the float instance), ocaml/drv_C19.ml, ocaml/caseio.ml",
-                "cpp/h_C19.cpp harness; tolerances 1e-9 + 4 eps (|inputs|) (add/sub), 1e-9 + 1e-14 cond (mean, cond = sum|w| / |resultant|)",
+                "cpp/h_C19.cpp harness; tolerances 1e-9 + 4 eps (|inputs|) (add/sub), 1e-9 + 4 eps cols cond (mean, cond = sum|w| / |resultant|; summation order only, both sides get identical inputs)",
                 "correspondence is sampled: agreement is established on the generated cases only",
                 "IEEE rounding is not modelled: theorems are over R; on doubles the half-turn boundary is the double nearest pi, which lies strictly inside (-pi, pi]"]
 ASSUMPTIONS = ["std::exp(std::complex) = (exp(re) cos(im), exp(re) sin(im)) and std::arg(z) = atan2(imag, real) (C++ standard; checked against libm through the model on every case)"]
@@ -32,7 +33,7 @@ COUNTS = {"quick": 600, "thorough": 40000}
 PI = math.pi
 TWO_PI = 2.0 * math.pi
 EPS = 2.220446049250313e-16
-STATS = {"near_boundary_skipped": 0, "direct_compared": 0}
+STATS = {"near_boundary_skipped": 0, "direct_compared": 0, "empty_results": 0}
 
 
 # ------------------------------------------------------------------ helpers
@@ -66,11 +67,25 @@ def shifts(rng, shape, big):
 
 # ------------------------------------------------------------------ generators
 
+def shape(rng, min_cols=0):
+    """rows x cols: mostly up to 4 x 9, a quarter up to 16 x 50, a few without rows or without columns."""
+    u = rng.random()
+    if u < 0.04:
+        return 0, rng.randint(max(1, min_cols), 9)
+    if u < 0.08 and min_cols == 0:
+        return rng.randint(1, 6), 0
+    if u < 0.30:
+        return rng.randint(1, 16), rng.randint(max(1, min_cols), 50)
+    return rng.randint(1, 4), rng.randint(max(1, min_cols), 9)
+
+
 def gen_addsub(rng, k, forced=None):
     kind = rng.choice(["add", "sub"])
     sgn = 1.0 if kind == "add" else -1.0
-    r = rng.randint(1, 4); c = rng.randint(1, 9)
+    r, c = shape(rng)
     flavour = forced or rng.choice(["small", "small", "huge", "huge", "pi_exact", "near_pi", "mixed"])
+    if r * c == 0:
+        flavour = "empty"
     a = np.zeros((r, c)); b = np.zeros(r)
     if flavour in ("small", "mixed"):
         a = np.array([[rng.uniform(-PI, PI) for _ in range(c)] for _ in range(r)])
@@ -108,7 +123,7 @@ def gen_addsub(rng, k, forced=None):
     ka = shifts(rng, (r, c), big); kb = shifts(rng, (r,), big)
     a2 = a + TWO_PI * ka; b2 = b + TWO_PI * kb
     cs = caseio.Case(k, kind, {"rows": r, "cols": c, "flavour": flavour, "bigshift": int(big)})
-    cs.mat("a", a).mat("b", b.reshape(-1, 1)).mat("a2", a2).mat("b2", b2.reshape(-1, 1))
+    cs.mat_shape("a", r, c, a).mat_shape("b", r, 1, b).mat_shape("a2", r, c, a2).mat_shape("b2", r, 1, b2)
     return cs
 
 
@@ -118,15 +133,25 @@ def resultant(a, w):
 
 def gen_mean(rng, k, forced=None):
     for _ in range(200):
-        r = rng.randint(1, 4)
+        r, c0 = shape(rng)
+        if r > 0 and c0 == 0 and rng.random() < 0.5:
+            c0 = 1
         wkind = rng.choice(["positive", "positive", "unscented", "unscented_sym"])
+        if c0 == 0 or r == 0:
+            wkind = "positive"
         if wkind == "positive":
-            c = rng.choice([1, 1, 2, 2, 3, 4, 5, 6, 7, 8, 9])
+            c = c0 if rng.random() < 0.8 or c0 == 0 else 1
             w = np.array([rng.random() + 0.02 for _ in range(c)])
-            w = w / w.sum() if rng.random() < 0.8 else w * rng.uniform(0.1, 5.0)
+            if c > 0:
+                w = w / w.sum() if rng.random() < 0.8 else w * rng.uniform(0.1, 5.0)
             cfac = None
+            if c == 1 and rng.random() < 0.4:
+                # one column: the branch that returns the column as is; weight <= 0 is outside the property's weight classes
+                wkind = "single_nonpositive"
+                w = np.array([rng.choice([0.0, -1.0, -rng.uniform(1e-3, 3.0)])])
         else:
-            n = rng.randint(1, 4); c = 2 * n + 1
+            n = max(1, (min(c0, 49) - 1) // 2) if rng.random() < 0.5 else rng.randint(1, 4)
+            c = 2 * n + 1
             alpha = rng.choice([1.0, 1.0, 0.5, 0.1, 1e-2, 1e-3]); kappa = rng.choice([0.0, 3.0 - n, 1.0])
             if n + kappa <= 0:
                 kappa = 0.0
@@ -134,9 +159,13 @@ def gen_mean(rng, k, forced=None):
         flavour = forced or rng.choice(["clustered", "clustered", "uniform", "huge", "all_equal", "all_equal_out", "pi_exact"])
         if wkind == "unscented_sym":
             flavour = "symmetric"
+        if r * c == 0:
+            flavour = "empty"
         centre = np.zeros(r); lo = np.zeros(r); hi = np.zeros(r)
         a = np.zeros((r, c))
         for i in range(r):
+            if c == 0:
+                break
             centre[i] = rng.uniform(-PI, PI) if rng.random() < 0.5 else rng.uniform(-1e6, 1e6)
             if flavour == "clustered":
                 h = rng.uniform(1e-3, PI / 2 - 1e-3)
@@ -155,28 +184,31 @@ def gen_mean(rng, k, forced=None):
                 centre[i] = rng.choice([PI, -PI]); a[i] = centre[i]
             elif flavour == "symmetric":
                 n = (c - 1) // 2
-                d = np.array([math.sqrt(cfac) * rng.uniform(0.0, 0.8) for _ in range(n)])
+                d = np.array([math.sqrt(cfac) * rng.uniform(0.0, 0.8) / math.sqrt(max(1.0, n / 4.0)) for _ in range(n)])
                 a[i, 0] = centre[i]; a[i, 1:n + 1] = centre[i] + d; a[i, n + 1:] = centre[i] - d
-        re, im = resultant(a, w)
-        rl = np.hypot(re, im)
-        if c > 1 and rl.min() < 1e-6:
-            continue
-        if flavour == "symmetric":
-            # wide unscented spreads can make the resultant point away from the centre (sum_j sigma_j^2 > 2):
-            # the argument of the resultant is then centre + pi; record the expected value
-            proj = re * np.cos(centre) + im * np.sin(centre)
-            centre = np.where(proj < 0, centre + PI, centre)
-        cond = float(np.abs(w).sum() / rl.min()) if c > 1 else 1.0
-        if cond > 1e8:
-            continue
+        if r * c > 0:
+            re, im = resultant(a, w)
+            rl = np.hypot(re, im)
+            if c > 1 and rl.min() < 1e-6:
+                continue
+            if flavour == "symmetric":
+                # wide unscented spreads can make the resultant point away from the centre (sum_j sigma_j^2 > 2):
+                # the argument of the resultant is then centre + pi; record the expected value
+                proj = re * np.cos(centre) + im * np.sin(centre)
+                centre = np.where(proj < 0, centre + PI, centre)
+            cond = float(np.abs(w).sum() / rl.min()) if c > 1 else 1.0
+            if cond > 1e8:
+                continue
+        else:
+            cond = 1.0
         big = rng.random() < 0.3
         a2 = a + TWO_PI * shifts(rng, (r, c), big)
         delta = rng.uniform(-PI, PI) if rng.random() < 0.7 else rng.uniform(-1e4, 1e4)
         a3 = a + delta
         cs = caseio.Case(k, "mean", {"rows": r, "cols": c, "flavour": flavour, "weights": wkind, "cond": "%.3g" % cond,
                                      "bigshift": int(big)})
-        cs.mat("a", a).mat("w", w.reshape(-1, 1)).mat("a2", a2).mat("a3", a3).mat("delta", [[delta]])
-        cs.mat("centre", centre.reshape(-1, 1)).mat("arc", np.stack([lo, hi], axis=1))
+        cs.mat_shape("a", r, c, a).mat_shape("w", c, 1, w).mat_shape("a2", r, c, a2).mat_shape("a3", r, c, a3).mat("delta", [[delta]])
+        cs.mat_shape("centre", r, 1, centre).mat_shape("arc", r, 2, np.stack([lo, hi], axis=1) if r else None)
         return cs
     raise RuntimeError("could not generate a mean case with resultant >= 1e-6")
 
@@ -210,6 +242,8 @@ def corpus(k0):
     meancase([[7.0], [-7.0], [PI], [0.25]], [1.0], "all_equal_out", "positive", [7.0, -7.0, PI, 0.25])
     meancase([[7.0, 7.0], [-0.5, -0.5]], [0.5, 0.5], "all_equal_out", "positive", [7.0, -0.5])
     meancase([[3.0, -3.0, 3.1]], [0.3, 0.3, 0.4], "uniform", "positive", [0.0])
+    meancase([[0.5], [2.0]], [-1.0], "all_equal", "single_nonpositive", [0.5, 2.0])
+    meancase([[0.5], [9.0]], [0.0], "all_equal_out", "single_nonpositive", [0.5, 9.0])
     return out
 
 
@@ -238,14 +272,21 @@ def tol_addsub(c, second=False):
 
 
 def tol_mean(c):
-    return 1e-9 + 1e-14 * float(c.meta["cond"])
+    """impl vs model: identical inputs, identical libm; only the summation order of the two weighted sums differs."""
+    return 1e-9 + 4 * EPS * max(1, int(c.meta["cols"])) * float(c.meta["cond"])
 
 
 def circ_compare(name, x, y, tol, diffs, exact_kind=False):
     """Correspondence of two angle arrays: equal as numbers away from the +-pi boundary, equal modulo 2 pi near it."""
     x, y = np.asarray(x, dtype=float), np.asarray(y, dtype=float)
+    if x.shape[0] == 0 and y.shape[0] == 0:
+        STATS["empty_results"] += 1     # no rows: the list-of-rows model carries no width
+        return
     if x.shape != y.shape:
         diffs.append("%s: shape impl=%s model=%s" % (name, x.shape, y.shape)); return
+    if x.size == 0:
+        STATS["empty_results"] += 1
+        return
     if not (np.all(np.isfinite(x)) and np.all(np.isfinite(y))):
         if not caseio.close(x, y, 0, 0):
             diffs.append("%s: non-finite values differ" % name)
@@ -272,11 +313,11 @@ def compare(c, impl, model):
         for f in ("res", "res2", "res3"):
             if not impl.has(f) or not model.has(f):
                 diffs.append("%s missing" % f); continue
-            if single:      # returned as is: bit-for-bit
+            if single and impl.get(f).shape[0] > 0:      # returned as is: bit-for-bit
                 if not caseio.close(impl.get(f), model.get(f), 0, 0):
                     diffs.append("%s: single column not returned as is (impl %s, model %s)" % (f, impl.get(f).ravel()[:3], model.get(f).ravel()[:3]))
             else:
-                circ_compare(f, impl.get(f), model.get(f), t + 4 * EPS * np.max(np.abs(c.get("a"))) * float(c.meta["cond"]), diffs)
+                circ_compare(f, impl.get(f), model.get(f), t, diffs)
     return diffs
 
 
@@ -292,6 +333,13 @@ def oracle(c, impl, model):
             return [("C19:%s:shape" % c.kind, "result shape %s for input %s" % (None if res is None else res.shape, a.shape))]
         if impl.get("inputs_unchanged") != 1:
             v.append(("C19:%s:inputs-modified" % c.kind, "an argument was modified"))
+        if impl.get("via_equal") != 1:
+            v.append(("C19:%s:expression-arguments" % c.kind, "result differs when the arguments are passed as M.bottomRows(k) / M.col(j) / M.transpose()"))
+        if res.size == 0:
+            r2 = impl.get("res2")
+            if r2 is None or r2.shape != a.shape:
+                v.append(("C19:%s:shape" % c.kind, "second result shape for an empty input"))
+            return v
         x = a + sgn * b                                  # ordinary sum / difference (b broadcast over columns)
         tol = tol_addsub(c)
         if not np.all(np.isfinite(res)):
@@ -333,16 +381,43 @@ def oracle(c, impl, model):
     if res is None or res.shape != (r, 1):
         return [("C19:mean:shape", "result shape %s for %d rows" % (None if res is None else res.shape, r))]
     res = res.ravel()
+    if impl.get("via_equal") != 1:
+        v.append(("C19:mean:expression-arguments", "result differs when the arguments are passed as M.bottomRows(k) / M.col(j) / M.transpose()"))
+    if r == 0 or cols == 0:
+        for f in ("res2", "res3"):
+            x = impl.get(f)
+            if x is None or x.shape != (r, 1):
+                v.append(("C19:mean:shape", "%s for an empty input" % f))
+        return v                     # no samples: resultant 0, outside the property's quantifier; correspondence only
     cond = float(c.meta["cond"]); amax = float(np.max(np.abs(a)))
-    tol = 1e-9 + 1e-14 * cond
+    tol = tol_mean(c)
     tol_in = tol + 4 * EPS * cond * (amax + 1e6 * int(c.meta.get("bigshift", 0)) + 1e4)   # inputs themselves perturbed (shifts / rotation)
     if not np.all(np.isfinite(res)):
         return [("C19:mean:not-finite", "non-finite result")]
     fl = c.meta["flavour"]
     if cols == 1:
         # judged against the property modulo 2 pi: the sample itself is a valid representative
-        if not np.all(circ_close(res, a[:, 0], 1e-9 + 4 * EPS * amax)):
+        if float(w[0]) > 0 and not np.all(circ_close(res, a[:, 0], 1e-9 + 4 * EPS * amax)):
             v.append(("C19:mean:single-column-not-the-sample", "%s for samples %s" % (res[:3], a[:3, 0])))
+        # ... and against the property's literal clauses (C19_mean_single_column_literal_refuted)
+        w0 = float(w[0])
+        if abs(w0) >= 1e-6:           # resultant length >= 1e-6: inside the property's quantifier
+            spec = np.arctan2(w0 * np.sin(a[:, 0]), w0 * np.cos(a[:, 0]))
+            nb = near_boundary(spec)
+            bad = np.where(nb, ~circ_close(res, spec, 1e-9), np.abs(res - spec) > 1e-9)
+            if np.any(bad):
+                i = int(np.flatnonzero(bad)[0])
+                if w0 > 0:
+                    v.append(("C19:mean:single-column:not-arg-of-resultant", "row %d: %r returned for the single sample %r; the argument of the resultant is %r" % (i, float(res[i]), float(a[i, 0]), float(spec[i]))))
+                else:
+                    v.append(("C19:mean:single-column:weight-ignored", "row %d: %r returned for the single sample %r with weight %r; the argument of the resultant is %r" % (i, float(res[i]), float(a[i, 0]), w0, float(spec[i]))))
+            r2 = impl.get("res2")
+            if w0 > 0 and r2 is not None and r2.shape == (r, 1):
+                d = np.abs(r2.ravel() - res)
+                moved = (d > 1e-9 + 8 * EPS * (amax + float(np.max(np.abs(c.get("a2")))))) & ~near_boundary(res)
+                if np.any(moved):
+                    i = int(np.flatnonzero(moved)[0])
+                    v.append(("C19:mean:single-column:shift-changes-result", "row %d: %r after a 2 pi shift of the sample, %r before" % (i, float(r2.ravel()[i]), float(res[i]))))
     else:
         if np.any(np.abs(res) > PI):
             v.append(("C19:mean:out-of-range", "value outside (-pi, pi]: %s" % res[:4]))
@@ -369,6 +444,8 @@ def oracle(c, impl, model):
         if np.any(bad):
             i = int(np.flatnonzero(bad)[0])
             v.append(("C19:mean:outside-arc", "row %d: offset %r from the centre, samples span [%r, %r]" % (i, float(d[i]), float(arc[i, 0]), float(arc[i, 1]))))
+    if cols == 1 and abs(float(w[0])) < 1e-6:
+        return v                     # zero resultant: outside the property's quantifier
     res2 = impl.get("res2")
     if res2 is not None:
         res2 = res2.ravel()
